@@ -23,8 +23,12 @@ HARNESSES += [
       functions=["<Option<FR> as request::from_request::FromRequest>::from_request"],
       clauses=["None only when the inner extractor reports absence", "present and valid => Some(value)", "present but invalid => Some(Err) (error response, handler does not run)"],
       bound="finite case split over the three outcomes of the inner extractor"),
-]
+] + [H(f"c07_body_gate_contract_k{k:02d}", crate="ohkami", tier="quick", timeout=900, strength="bounded",
+       functions=["<B: FromBody as request::from_request::FromRequest>::from_request (the body media-type gate)"],
+       clauses=["the extractor's decoder runs, on exactly the payload bytes, iff the Content-Type starts with the extractor's WHOLE media type (parameters may follow) and a payload is present",
+                "otherwise the item is absent (None): a Content-Type that is shorter than, a prefix of, or different from the media type never reaches the decoder"],
+       bound=("no Content-Type header" if k == 14 else f"Content-Type value of {k % 7} symbolic printable ASCII bytes, payload {'present (1 symbolic byte)' if k // 7 == 0 else 'absent'}") + "; probe extractor with media type `a/bc`") for k in range(15)]
 TRUSTED = ["core::num FromStr is executed symbolically (it is what the repaired code calls), the reference grammar in harness/C07 is independent of it",
            "alloc::fmt::format stubbed (error message text)"]
 ASSUMPTIONS = ["param strings restricted to ASCII (a non-ASCII UTF-8 string is never an integer; percent-decoding is checked in C08)",
-               "the ~20 macro-generated IntoHandler impls ('handler runs only if all extractions are Ok') and the body/query decoders behind FromBody are not under contract here (decoders: C08-C10)"]
+               "the ~20 macro-generated IntoHandler impls ('handler runs only if all extractions are Ok') and the body/query decoders behind FromBody are not under contract here (decoders: C08-C10); the media-type gate is under contract through a probe extractor, core::str::from_utf8 replaced by an ASCII-only assumed contract there"]
